@@ -809,3 +809,809 @@ PROPS = {
                 followups=[(roundtrip_C09, chk_roundtrip_C09)]),
     'C19': dict(roots=[ARITH % 'Rem|RemAssign', r'^TwoFloat\.(div_euclid|rem_euclid)$'], gen=gen_C19, chk=chk_C19, n_quick=700, n_thorough=30000),
 }
+
+# ================================================================================================ C01
+
+_ENTS = None
+def all_entries():
+    global _ENTS
+    if _ENTS is None:
+        import json
+        from . import pipeline
+        _ENTS = json.load(open(pipeline.shared()['entrypoints']))
+    return _ENTS
+
+TF_RET = ('tf', 'tfpair', 'opttf', 'restf')
+def c01_ops():
+    return [e for e in all_entries() if e['ret'] in TF_RET and all(k in ('tf', 'f64', 'f32', 'pair', 'arr2') or k in fp.INT_RANGES for k in e['args'])]
+
+def c01_arg(kind, r, pool):
+    if kind == 'tf':
+        if pool and r.below(3) == 0:
+            return list(map(hx, r.choice(pool)))
+        return list(map(hx, tf_in(r, -1000, 1000)))
+    if kind == 'f64':
+        if pool and r.below(4) == 0:
+            return [hx(r.choice(pool)[0])]
+        return [hx(f_in(r, -1000, 1000))]
+    if kind in ('pair', 'arr2'):
+        return list(map(hx, tf_in(r, -1000, 1000)))
+    if kind == 'f32':
+        import struct
+        x = f_in(r, -120, 120)
+        return [fp.f32hx(x)]
+    return [str(fp.any_int(r, kind))]
+
+def gen_C01(r, n, pool=None):
+    c = Cases()
+    ops = c01_ops()
+    per = max(2, n // max(1, len(ops)))
+    for e in ops:
+        if e.get('const'):
+            c.add(e['name'], op=e['name'])
+            continue
+        for _ in range(per):
+            w = [e['name']]
+            for k in e['args']:
+                w += c01_arg(k, r, pool)
+            c.add(' '.join(w), op=e['name'])
+    return c
+
+def results_of(a, ret='tf'):
+    if a in ('PANIC', 'bad-op', 'Err', 'None'):
+        return []
+    w = a.replace('Some(', '').replace('Ok(', '').replace(')', '').split()
+    return [(unhx(w[i]), unhx(w[i + 1])) for i in range(0, len(w) - 1, 2)]
+
+def chk_C01(c, ans):
+    out = []
+    for i, (ln, m, a) in enumerate(zip(c.lines, c.meta, ans)):
+        if a == 'bad-op':
+            out.append(fail(i, 'no-panic', a)); continue
+        if a == 'PANIC':
+            # panics on valid operands are claimed by C13-C18 for their families; here only the invariant
+            continue
+        for (h, l) in results_of(a):
+            if not inv_ok(h, l):
+                out.append(fail(i, 'invariant', 'result (%s, %s): finite high word with an overlapping/non-finite low word' % (hx(h), hx(l))))
+    return out
+
+def chain_C01(c, ans):
+    """feed valid results back in: next round of a random program"""
+    pool = []
+    for a in ans:
+        for (h, l) in results_of(a):
+            if fp.is_valid(h, l) and (h == 0 or Fr(2) ** -1000 <= abs(Fr(h)) <= Fr(2) ** 1000):
+                pool.append((h, l))
+    r = fp.Rng(len(pool) * 7919 + 13)
+    if not pool:
+        return Cases()
+    pool = [pool[r.below(len(pool))] for _ in range(min(len(pool), 4000))]
+    c2 = gen_C01(r, max(600, len(c.lines) // 2), pool)
+    return c2
+
+PROPS['C01'] = dict(roots=[r'.'], gen=gen_C01, chk=chk_C01, n_quick=6000, n_thorough=150000,
+                    followups=[(chain_C01, chk_C01, True), (chain_C01, chk_C01, True), (chain_C01, chk_C01, True)])
+
+# ================================================================================================ C10
+
+NUMT = 'num_integration.impl_%s_for_TwoFloat.%s'
+def c10_trait_pairs():
+    """(trait entry point, inherent/constant counterpart) with identical argument kinds"""
+    ents = {e['name']: e for e in all_entries()}
+    pairs = []
+    for name, e in ents.items():
+        m = re.match(r'num_integration\.impl_(Float|FloatCore|Signed)_for_TwoFloat\.(\w+)$', name)
+        if m:
+            meth = m.group(2)
+            inh = {'is_positive': 'is_sign_positive', 'is_negative': 'is_sign_negative'}.get(meth, meth) if m.group(1) == 'Signed' else meth
+            cand = 'TwoFloat.' + inh
+            if cand in ents and ents[cand]['args'] == e['args'] and ents[cand]['ret'] == e['ret']:
+                pairs.append((name, cand))
+            const = {'infinity': 'INFINITY', 'neg_infinity': 'NEG_INFINITY', 'nan': 'NAN', 'min_value': 'MIN', 'max_value': 'MAX',
+                     'min_positive_value': 'MIN_POSITIVE', 'epsilon': 'EPSILON'}.get(meth)
+            if const and not e['args']:
+                pairs.append((name, 'TwoFloat.' + const))
+        m = re.match(r'num_integration\.impl_FloatConst_for_TwoFloat\.(\w+)$', name)
+        if m and ('consts.' + m.group(1)) in ents:
+            pairs.append((name, 'consts.' + m.group(1)))
+        m = re.match(r'num_integration\.impl_Bounded_for_TwoFloat\.(min|max)_value$', name)
+        if m:
+            pairs.append((name, 'TwoFloat.' + m.group(1).upper()))
+        m = re.match(r'num_integration\.impl_Inv(_for_rTwoFloat|_for_TwoFloat)\.inv$', name)
+        if m:
+            pairs.append((name, 'TwoFloat.recip'))
+        m = re.match(r'num_integration\.impl_Pow_r?(i8|i16|i32|u8|u16)_for_r?TwoFloat\.pow$', name)
+        if m:
+            pairs.append((name, 'TwoFloat.powi'))
+        m = re.match(r'num_integration\.impl_Pow_r?(TwoFloat)_for_r?TwoFloat\.pow$', name)
+        if m:
+            pairs.append((name, 'TwoFloat.powf'))
+    return pairs, ents
+
+def gen_C10(r, n):
+    c = Cases()
+    pairs, ents = c10_trait_pairs()
+    gid = 0
+    def operand():
+        k = r.below(12)
+        if k == 0:
+            return fp.any_tf(r)          # non-finite / NaN-containing values reachable through the API
+        if k == 1:
+            return (r.choice([0.0, -0.0]), r.choice([0.0, -0.0]))
+        if k == 2:
+            return (float(r.rng(-8, 8)), 0.0)
+        return tf_in(r, -300, 300)
+    for _ in range(n):
+        a, b = operand(), operand()
+        if r.below(5) == 0:
+            b = cancel_partner(r, a) if fp.is_valid(*a) else b
+        f = r.choice([b[0], fp.any_f64(r), float(r.rng(-4, 4))])
+        gid += 1
+        for tr in ('Add', 'Sub', 'Mul', 'Div', 'Rem'):
+            # 4 reference/value forms x 3 pairings, plus compound assignment
+            for (L_, R_, args, pg) in (('TwoFloat', 'TwoFloat', '%s %s' % (w2(a), w2(b)), 'tt'),
+                                       ('TwoFloat', 'f64', '%s %s' % (w2(a), hx(f)), 'tf'),
+                                       ('f64', 'TwoFloat', '%s %s' % (hx(f), w2(a)), 'ft')):
+                for lref in ('', 'r'):
+                    for rref in ('', 'r'):
+                        c.add('%s %s' % (opname(tr, lref + L_, rref + R_), args), group=(gid, tr, pg), role='form')
+                if L_ == 'TwoFloat':
+                    for rref in ('', 'r'):
+                        c.add('%s %s' % (asgname(tr, rref + R_), args), group=(gid, tr, pg), role='form')
+        c.add('%s %s' % (NEG, w2(a)), group=(gid, 'neg', 'a'), role='form')
+        c.add('%s %s' % (A + 'impl_Neg_for_TwoFloat.neg', w2(a)), group=(gid, 'neg', 'a'), role='form')
+        # commutativity, bit for bit
+        c.add('%s %s %s' % (TT('Add'), w2(b), w2(a)), group=(gid, 'Add', 'tt'), role='comm')
+        c.add('%s %s %s' % (FT('Add'), hx(f), w2(a)), group=(gid, 'Add', 'tf'), role='comm')
+        c.add('%s %s %s' % (FT('Mul'), hx(f), w2(a)), group=(gid, 'Mul', 'tf'), role='comm')
+        # material for the second round
+        c.add('%s %s' % (NEG, w2(b)), group=(gid, 'negb', ''), role='aux', a=a, b=b)
+        c.add('%s %s %s' % (TT('Sub'), w2(b), w2(a)), group=(gid, 'b-a', ''), role='aux', a=a, b=b)
+        # iterator sum vs explicit left fold
+        k = r.rng(0, 5)
+        xs = [operand() for _ in range(k)]
+        c.add('sum_tf %d %s' % (k, ' '.join(w2(x) for x in xs)), group=(gid, 'sum', 'tf'), role='form')
+        c.add('fold_tf %d %s' % (k, ' '.join(w2(x) for x in xs)), group=(gid, 'sum', 'tf'), role='form')
+        fs = [fp.any_f64(r) for _ in range(k)]
+        c.add('sum_f64 %d %s' % (k, ' '.join(hx(x) for x in fs)), group=(gid, 'sum', 'f'), role='form')
+        c.add('fold_f64 %d %s' % (k, ' '.join(hx(x) for x in fs)), group=(gid, 'sum', 'f'), role='form')
+        # trait entry points vs inherent counterparts
+        for (tn, inh) in pairs:
+            if r.below(6):
+                continue
+            e = ents[tn]
+            w = []
+            for kk in e['args']:
+                if kk == 'tf':
+                    w += [w2(r.choice([a, b]))]
+                elif kk == 'f64':
+                    w += [hx(f)]
+                else:
+                    w += [str(fp.any_int(r, kk) if r.below(3) else r.rng(max(-20, fp.INT_RANGES[kk][0]), 20))]
+            gid += 1
+            c.add('%s %s' % (tn, ' '.join(w)), group=(gid, 'trait', tn), role='form')
+            c.add('%s %s' % (inh, ' '.join(w)), group=(gid, 'trait', tn), role='form')
+        # mul_add(a, b) == self*a + b : needs a second round
+        gid += 1
+    return c
+
+def only_zero_sign(x, y):
+    """two answers differ only in the sign bit of words that are zero"""
+    wx, wy = x.split(), y.split()
+    if len(wx) != len(wy):
+        return False
+    for p, q in zip(wx, wy):
+        if p != q:
+            if not ({p, q} == {'0000000000000000', '8000000000000000'}):
+                return False
+    return True
+
+def chk_C10(c, ans):
+    out = []
+    groups = {}
+    for i, (m, a) in enumerate(zip(c.meta, ans)):
+        if m['role'] in ('form', 'comm'):
+            groups.setdefault(m['group'], []).append(i)
+        m['ans'] = a
+    for g, idxs in groups.items():
+        ref = ans[idxs[0]]
+        for i in idxs[1:]:
+            if ans[i] != ref:
+                clause = {'trait': 'trait_vs_inherent', 'sum': 'sum_eq_fold', 'neg': 'neg_forms'}.get(g[1], 'forms_%s_%s' % (g[1], g[2]))
+                if c.meta[i]['role'] == 'comm':
+                    clause = 'commutative_%s_%s' % (g[1], g[2])
+                out.append(fail(i, clause, '%s gives %s but %s gives %s' % (c.lines[idxs[0]].split()[0], ref, c.lines[i].split()[0], ans[i])))
+    return out
+
+def round2_C10(c, ans):
+    c2 = Cases()
+    by = {}
+    for ln, m, a in zip(c.lines, c.meta, ans):
+        by.setdefault(m['group'][0], {})[(m['group'][1], m['group'][2], ln.split()[0])] = (ln, a, m)
+    for gid, d in by.items():
+        negb = next((v for k, v in d.items() if k[0] == 'negb'), None)
+        bma = next((v for k, v in d.items() if k[0] == 'b-a'), None)
+        if not negb or not bma or negb[1] in ('PANIC', 'bad-op'):
+            continue
+        a, b = negb[2]['a'], negb[2]['b']
+        amb = d.get(('Sub', 'tt', TT('Sub')))
+        ab = d.get(('Mul', 'tt', TT('Mul')))
+        nega = d.get(('neg', 'a', NEG))
+        if not (amb and ab and nega):
+            continue
+        nb = words(negb[1]); na = words(nega[1])
+        c2.add('%s %s %s' % (TT('Add'), w2(a), w2(nb)), want=amb[1], clause='sub_eq_add_neg')
+        c2.add('%s %s' % (NEG, w2(words(bma[1]))), want=amb[1], clause='neg_sub_swap')
+        c2.add('%s %s %s' % (TT('Mul'), w2(na), w2(b)), want=None, other=w2(words(ab[1])), clause='neg_mul')
+        c2.add('%s %s' % (NEG, w2(na)), want=w2(a), clause='neg_neg')
+        # mul_add(a, b) == self*a + b
+        c2.add('%s %s %s %s' % (NUMT % ('Float', 'mul_add'), w2(a), w2(a), w2(b)), want=None, clause='mul_add', ref=('%s %s %s' % (TT('Mul'), w2(a), w2(a)), b))
+    return c2
+
+def chk_round2_C10(c2, ans):
+    out = []
+    for i, (ln, m, a) in enumerate(zip(c2.lines, c2.meta, ans)):
+        cl = m['clause']
+        if cl == 'neg_mul':
+            m['got'] = a
+            continue
+        if cl == 'mul_add':
+            continue
+        if m['want'] is not None and a != m['want']:
+            if only_zero_sign(a, m['want']):
+                out.append(dict(fail(i, cl, 'differs in the sign of a zero word: %s vs %s' % (a, m['want'])), key=cl + ':zero-sign'))
+            else:
+                out.append(fail(i, cl, 'got %s want %s' % (a, m['want'])))
+    return out
+
+def round3_C10(c2, ans):
+    c3 = Cases()
+    for ln, m, a in zip(c2.lines, c2.meta, ans):
+        if m['clause'] == 'neg_mul' and a not in ('PANIC', 'bad-op'):
+            c3.add('%s %s' % (NEG, m['other']), want=a, clause='neg_mul')
+        if m['clause'] == 'mul_add' and a not in ('PANIC', 'bad-op'):
+            c3.add(m['ref'][0], want=a, clause='mul_add_stage', b=m['ref'][1])
+    return c3
+
+def chk_round3_C10(c3, ans):
+    out = []
+    for i, (ln, m, a) in enumerate(zip(c3.lines, c3.meta, ans)):
+        if m['clause'] == 'neg_mul' and a != m['want']:
+            if only_zero_sign(a, m['want']):
+                out.append(dict(fail(i, 'neg_mul', 'differs in the sign of a zero word: -(a*b)=%s vs (-a)*b=%s' % (a, m['want'])), key='neg_mul:zero-sign'))
+            else:
+                out.append(fail(i, 'neg_mul', '-(a*b)=%s but (-a)*b=%s' % (a, m['want'])))
+    return out
+
+def round4_C10(c3, ans):
+    c4 = Cases()
+    for ln, m, a in zip(c3.lines, c3.meta, ans):
+        if m['clause'] == 'mul_add_stage' and a not in ('PANIC', 'bad-op'):
+            c4.add('%s %s %s' % (TT('Add'), w2(words(a)), w2(m['b'])), want=m['want'], clause='mul_add')
+    return c4
+
+def chk_round4_C10(c4, ans):
+    return [fail(i, 'mul_add', 'self*a+b = %s but mul_add = %s' % (a, m['want'])) for i, (m, a) in enumerate(zip(c4.meta, ans)) if a != m['want']]
+
+PROPS['C10'] = dict(roots=[r'^arithmetic\.impl_', r'^num_integration\.impl_', r'^iter\.'], extra_roots=[r'^iter\.impl_Sum'],
+                    gen=gen_C10, chk=chk_C10, n_quick=120, n_thorough=5000,
+                    followups=[(round2_C10, chk_round2_C10, True), (round3_C10, chk_round3_C10, True), (round4_C10, chk_round4_C10, True)])
+
+# ================================================================================================ C11
+
+def gen_C11(r, n):
+    c = Cases()
+    ents = [e for e in all_entries()]
+    per = max(2, n // len(ents))
+    from . import corr
+    for e in ents:
+        if e.get('const'):
+            c.add(e['name'], kind='const'); continue
+        for _ in range(per):
+            c.add(corr.gen_case(e, r, valid_only=(r.below(5) > 0)), kind='generic')
+    # fma-focused: the only cfg-selected primitive.  2Prod and the operator kernels call fma(a, b, c) with
+    # c = -RN(ab) (error term: exact, subnormal, double-rounding prone) and c = a previous error term.
+    for _ in range(n):
+        k = r.below(6)
+        if k == 0:
+            ea = r.rng(-1074, 1023); eb = max(-1074, min(1023, r.rng(-1130, -960) - ea))   # product in / near the subnormal range
+        elif k == 1:
+            ea = r.rng(-500, 500); eb = max(-1074, min(1023, r.rng(1000, 1030) - ea))      # product near overflow
+        else:
+            ea, eb = r.rng(-500, 500), r.rng(-500, 500)
+        a, b = fp.mant_exp(r, ea), fp.mant_exp(r, eb)
+        if k == 5:
+            # short mantissas: exact products, zero error terms
+            a = float(r.rng(1, 2**26)) * 2.0 ** r.rng(-200, 200); b = float(r.rng(1, 2**26)) * 2.0 ** r.rng(-200, 200)
+        c.add('TwoFloat.new_mul %s %s' % (hx(a), hx(b)), kind='fma')
+        c.add('TwoFloat.new_div %s %s' % (hx(a), hx(b)), kind='fma')
+        t = tf_in(r, max(-1000, ea - 2), min(1000, ea + 2))
+        c.add('%s %s %s' % (TF_('Mul'), w2(t), hx(b)), kind='fma')
+        t2 = tf_in(r, -500, 500)
+        c.add('%s %s %s' % (TT('Mul'), w2(t), w2(t2)), kind='fma')
+        c.add('%s %s %s' % (TT('Div'), w2(t), w2(t2)), kind='fma')
+        c.add('%s %s %s' % (TF_('Div'), w2(t), hx(b)), kind='fma')
+    return c
+
+def chk_none(c, ans):
+    return [fail(i, 'no-answer', a) for i, a in enumerate(ans) if a == 'bad-op']
+
+PROPS['C11'] = dict(roots=[r'.'], gen=gen_C11, chk=chk_none, n_quick=3000, n_thorough=100000, nostd=True)
+
+# ================================================================================================ transcendental helpers (mpmath, search only)
+
+def mp_true(fn, *vs):
+    m = mp()
+    return getattr(m, fn)(*vs)
+
+def err_fail(i, out, clause, hl, true, bound_abs):
+    """|got - true| <= bound_abs ?  (bound_abs is an mpf)"""
+    m = mp()
+    h, l = hl
+    if not finite(h, l):
+        out.append(fail(i, clause, 'non-finite result (%s, %s)' % (hx(h), hx(l)))); return
+    e = abs(mpv(h, l) - true)
+    if e > bound_abs:
+        rel = e / abs(true) if true != 0 else e
+        out.append(fail(i, clause, 'error 2^%.2f (rel 2^%.2f) exceeds bound 2^%.2f' % (log2_of(e), log2_of(rel), log2_of(bound_abs))))
+
+def P2(k):
+    return mp().mpf(2) ** k
+
+def log_uniform_tf(r, emin, emax, sign=None):
+    e = r.rng(emin, emax - 1)
+    t = tf_in(r, e, e + 1, zero=False)
+    if sign is not None:
+        if (t[0] < 0) != (sign < 0):
+            t = (-t[0], -t[1])
+    return t
+
+def tf_near(r, x, width_bits=8):
+    """a valid TwoFloat near the real x (Fraction or float): x*(1+d), |d| up to 2^-width_bits, adversarial low word"""
+    q = Fr(x)
+    d = Fr(r.rng(-2**20, 2**20), 2 ** (20 + r.rng(width_bits, 70)))
+    q = q * (1 + d)
+    h = fp.rn(q)
+    l = fp.rn(q - Fr(h))
+    if r.below(3) == 0:
+        l = 0.0
+    return (h, l) if fp.is_valid(h, l) else (h, 0.0)
+
+def tf_of_fr(q):
+    h = fp.rn(q); l = fp.rn(q - Fr(h))
+    return (h, l) if fp.is_valid(h, l) else (h, 0.0)
+
+# ================================================================================================ C12
+
+CONSTS = {
+    'E': lambda m: m.e, 'FRAC_1_PI': lambda m: 1 / m.pi, 'FRAC_1_SQRT_2': lambda m: 1 / m.sqrt(2), 'FRAC_2_PI': lambda m: 2 / m.pi,
+    'FRAC_2_SQRT_PI': lambda m: 2 / m.sqrt(m.pi), 'FRAC_PI_2': lambda m: m.pi / 2, 'FRAC_PI_3': lambda m: m.pi / 3, 'FRAC_PI_4': lambda m: m.pi / 4,
+    'FRAC_PI_6': lambda m: m.pi / 6, 'FRAC_PI_8': lambda m: m.pi / 8, 'LN_2': lambda m: m.log(2), 'LN_10': lambda m: m.log(10),
+    'LOG2_E': lambda m: 1 / m.log(2), 'LOG10_E': lambda m: 1 / m.log(10), 'LOG10_2': lambda m: m.log(2) / m.log(10), 'LOG2_10': lambda m: m.log(10) / m.log(2),
+    'PI': lambda m: m.pi, 'SQRT_2': lambda m: m.sqrt(2), 'TAU': lambda m: 2 * m.pi,
+}
+
+def mpf_to_fr(x):
+    m = mp()
+    sign, man, exp, bc = x._mpf_
+    q = Fr(int(man)) * (Fr(2) ** int(exp))
+    return -q if sign else q
+
+def gen_C12(r, n):
+    c = Cases()
+    for k in CONSTS:
+        c.add('consts.' + k, kind='const', name=k)
+        c.add(NUMT % ('FloatConst', k), kind='const', name=k)
+    for k in ('MAX', 'MIN', 'MIN_POSITIVE', 'NAN', 'INFINITY', 'NEG_INFINITY', 'EPSILON'):
+        c.add('TwoFloat.' + k, kind='assoc', name=k)
+    for _ in range(n):
+        x = log_uniform_tf(r, -450, 450)
+        c.add('TwoFloat.to_degrees %s' % w2(x), kind='deg', x=x)
+        c.add('TwoFloat.to_radians %s' % w2(x), kind='rad', x=x)
+    # greatest / least valid values: random valid values compared against MAX and MIN
+    for _ in range(max(10, n // 10)):
+        x = tf_in(r, 1000, 1024)
+        c.add('%s %s %s' % (CMP_TT, w2(x), '7fefffffffffffff 7c8fffffffffffff'), kind='le_max', x=x)
+        c.add('%s %s %s' % (CMP_TT, w2(x), 'ffefffffffffffff fc8fffffffffffff'), kind='ge_min', x=x)
+    return c
+
+def chk_C12(c, ans):
+    out = []
+    m = mp()
+    for i, (ln, mt, a) in enumerate(zip(c.lines, c.meta, ans)):
+        if a in ('PANIC', 'bad-op'):
+            out.append(fail(i, 'no-panic', a)); continue
+        k = mt['kind']
+        if k == 'const':
+            h, l = words(a)
+            true = mpf_to_fr(CONSTS[mt['name']](m))
+            eh = fp.rn(true)
+            el = fp.rn(true - Fr(eh))
+            if (hx(h), hx(l)) != (hx(eh), hx(el)):
+                out.append(fail(i, 'const_correctly_rounded', '%s = (%s, %s), expected (%s, %s)' % (mt['name'], hx(h), hx(l), hx(eh), hx(el))))
+            if not fp.is_valid(h, l):
+                out.append(fail(i, 'const_valid', mt['name']))
+        elif k == 'assoc':
+            h, l = words(a)
+            nme = mt['name']
+            if nme in ('MAX', 'MIN'):
+                s = 1 if nme == 'MAX' else -1
+                if not (fp.is_valid(h, l) and h == s * 1.7976931348623157e308):
+                    out.append(fail(i, 'max_min_valid', a))
+                nxt = math.nextafter(l, s * math.inf)
+                if fp.is_valid(h, nxt):
+                    out.append(fail(i, 'max_min_extreme', 'a larger low word would still be valid'))
+            elif nme == 'MIN_POSITIVE':
+                if not (h == 2.0 ** -1022 and hx(l) == hx(0.0)):
+                    out.append(fail(i, 'min_positive', a))
+            elif nme == 'NAN':
+                if not (h != h):
+                    out.append(fail(i, 'nan', a))
+            elif nme in ('INFINITY', 'NEG_INFINITY'):
+                if fp.is_valid(h, l) or not math.isinf(h):
+                    out.append(fail(i, 'infinity_not_valid', a))
+        elif k in ('deg', 'rad'):
+            x = mpv(*mt['x'])
+            true = x * 180 / m.pi if k == 'deg' else x * m.pi / 180
+            err_fail(i, out, 'angle_conversion', words(a), true, abs(true) * 6 * P2(-106))
+        elif k == 'le_max':
+            if fp.is_valid(*mt['x']) and a not in ('Some(Less)', 'Some(Equal)'):
+                out.append(fail(i, 'max_is_greatest', a))
+        elif k == 'ge_min':
+            if fp.is_valid(*mt['x']) and a not in ('Some(Greater)', 'Some(Equal)'):
+                out.append(fail(i, 'min_is_least', a))
+    return out
+
+def extra_C12(c, ans):
+    c2 = Cases()
+    c2.add('%s 7ff8000000000000 7ff8000000000000 7ff8000000000000 7ff8000000000000' % EQ_TT, want='false', clause='nan_ne_nan')
+    c2.add('TwoFloat.is_valid 7ff0000000000000 7ff0000000000000', want='false', clause='infinity_not_valid')
+    c2.add('TwoFloat.is_valid fff0000000000000 fff0000000000000', want='false', clause='infinity_not_valid')
+    c2.add('TwoFloat.is_valid 7fefffffffffffff 7c8fffffffffffff', want='true', clause='max_valid')
+    c2.add('TwoFloat.is_valid 7fefffffffffffff 7c90000000000000', want='false', clause='max_extreme')
+    c2.add('TwoFloat.is_valid ffefffffffffffff fc8fffffffffffff', want='true', clause='min_valid')
+    c2.add('TwoFloat.is_valid ffefffffffffffff fc90000000000000', want='false', clause='min_extreme')
+    return c2
+
+def chk_want(c2, ans):
+    return [fail(i, m['clause'], 'got %s want %s' % (a, m['want'])) for i, (m, a) in enumerate(zip(c2.meta, ans)) if a != m['want']]
+
+PROPS['C12'] = dict(roots=[r'^consts\.', r'^TwoFloat\.(MAX|MIN|MIN_POSITIVE|NAN|INFINITY|NEG_INFINITY|EPSILON|to_degrees|to_radians)$',
+                           r'^num_integration\.impl_(FloatConst|Bounded)_for_TwoFloat', r'^num_integration\.impl_Float(Core)?_for_TwoFloat\.(infinity|neg_infinity|nan|min_value|max_value|min_positive_value|epsilon|to_degrees|to_radians)$'],
+                    extra_roots=[r'^base\.(DEG_PER_RAD|RAD_PER_DEG)$', r'^explog\.LN_10$'],
+                    gen=gen_C12, chk=chk_C12, n_quick=400, n_thorough=20000, followups=[(extra_C12, chk_want)])
+
+# ================================================================================================ C13 roots and integer powers
+
+def gen_C13(r, n):
+    c = Cases()
+    for _ in range(n):
+        x = log_uniform_tf(r, -900, 900)
+        xp = (abs(x[0]), x[1] if x[0] > 0 else -x[1])
+        c.add('TwoFloat.sqrt %s' % w2(xp), kind='sqrt', x=xp)
+        c.add('TwoFloat.cbrt %s' % w2(x), kind='cbrt', x=x)
+        a, b = log_uniform_tf(r, -400, 400), log_uniform_tf(r, -400, 400)
+        if r.below(3) == 0:
+            e = math.frexp(a[0])[1] + r.rng(-60, 60)
+            b = log_uniform_tf(r, max(-400, min(399, e)), max(-399, min(400, e + 1)))
+        c.add('TwoFloat.hypot %s %s' % (w2(a), w2(b)), kind='hypot', x=a, y=b)
+        # powi: n log-uniform in |n|
+        k = r.below(8)
+        nn = r.choice([0, 1, -1, 2, -2, 3, 2**31 - 1, -2**31, -2**31 + 1]) if k == 0 else r.rng(1, 2 ** r.rng(1, 31)) * r.choice([1, -1])
+        nn = max(-2**31, min(2**31 - 1, nn))
+        # choose x so that |x|^|n| stays within [2^-900, 2^900] most of the time
+        lim = 900 / max(1, abs(nn))
+        if lim >= 1:
+            xx = log_uniform_tf(r, -int(lim), int(lim) + 1)
+        else:
+            d = Fr(r.rng(-2**30, 2**30), 2**30) * Fr(int(lim * 2**20), 2**20) * Fr(6, 10)
+            xx = tf_of_fr((1 + d) * r.choice([1, -1]))
+        c.add('TwoFloat.powi %s %d' % (w2(xx), nn), kind='powi', x=xx, n=nn)
+        c.add('TwoFloat.powi %s %d' % (w2(x), r.choice([0, 1, -2**31, 2**31 - 1, nn])), kind='powi_total', x=x)
+    for z in ((0.0, 0.0), (-0.0, 0.0), (-0.0, -0.0)):
+        c.add('TwoFloat.sqrt %s' % w2(z), kind='sqrt0', x=z)
+        c.add('TwoFloat.cbrt %s' % w2(z), kind='cbrt0', x=z)
+        for nn in (0, 1, 2, -1, 5, -2**31):
+            c.add('TwoFloat.powi %s %d' % (w2(z), nn), kind='powi_zero', x=z, n=nn)
+    for _ in range(max(5, n // 20)):
+        x = log_uniform_tf(r, -900, 900, sign=-1)
+        c.add('TwoFloat.sqrt %s' % w2(x), kind='sqrtneg', x=x)
+    return c
+
+def chk_C13(c, ans):
+    out = []
+    m = mp()
+    for i, (ln, mt, a) in enumerate(zip(c.lines, c.meta, ans)):
+        if a == 'bad-op':
+            out.append(fail(i, 'no-answer', a)); continue
+        k = mt['kind']
+        if a == 'PANIC':
+            out.append(fail(i, 'powi_no_panic' if k.startswith('powi') else 'no-panic', 'panicked')); continue
+        hl = words(a)
+        if k == 'sqrt':
+            t = m.sqrt(mpv(*mt['x']))
+            err_fail(i, out, 'sqrt_bound', hl, t, t * 32 * P2(-106))
+        elif k == 'cbrt':
+            v = mpv(*mt['x'])
+            t = m.cbrt(abs(v)) * (1 if v > 0 else -1)
+            err_fail(i, out, 'cbrt_bound', hl, t, abs(t) * 16 * P2(-106))
+        elif k == 'hypot':
+            t = m.sqrt(mpv(*mt['x']) ** 2 + mpv(*mt['y']) ** 2)
+            err_fail(i, out, 'hypot_bound', hl, t, t * 48 * P2(-106))
+        elif k in ('sqrt0', 'cbrt0'):
+            if not (hl[0] == 0 and hl[1] == 0):
+                out.append(fail(i, k, 'got %s' % a))
+        elif k == 'sqrtneg':
+            if fp.is_valid(*hl):
+                out.append(fail(i, 'sqrt_neg_invalid', 'got %s' % a))
+        elif k == 'powi_zero':
+            if mt['n'] == 0 and fp.is_valid(*hl):
+                out.append(fail(i, 'powi_0_0_nan', a))
+        elif k == 'powi':
+            n_, x = mt['n'], mt['x']
+            v = mpv(*x)
+            if n_ == 0:
+                if v != 0 and not (hl[0] == 1.0 and hl[1] == 0.0):
+                    out.append(fail(i, 'powi_zero_exp', a))
+            elif n_ == 1:
+                if w2(hl) != w2(x):
+                    out.append(fail(i, 'powi_one', a))
+            else:
+                mag = abs(n_) * m.log(abs(v), 2)
+                if abs(mag) <= 900:
+                    t = v ** n_
+                    err_fail(i, out, 'powi_bound', hl, t, abs(t) * (6 * abs(n_) + 16) * P2(-106))
+                    if finite(*hl) and hl[0] != 0 and ((hl[0] < 0) != (t < 0)):
+                        out.append(fail(i, 'powi_sign', a))
+    return out
+
+def recip_C13(c, ans):
+    c2 = Cases()
+    for ln, mt, a in zip(c.lines, c.meta, ans):
+        if mt['kind'] == 'powi' and mt['n'] < 0 and mt['n'] > -2**31 and a not in ('PANIC', 'bad-op'):
+            c2.add('TwoFloat.powi %s %d' % (w2(mt['x']), -mt['n']), stage=1, neg=a)
+    return c2
+def chk_nothing(c, ans):
+    return [fail(i, 'powi_no_panic', a) for i, a in enumerate(ans) if a == 'PANIC']
+def recip2_C13(c2, ans):
+    c3 = Cases()
+    for ln, mt, a in zip(c2.lines, c2.meta, ans):
+        if a not in ('PANIC', 'bad-op'):
+            c3.add('TwoFloat.recip %s' % w2(words(a)), want=mt['neg'], clause='powi_neg_is_recip')
+    return c3
+
+PROPS['C13'] = dict(roots=[r'^TwoFloat\.(sqrt|cbrt|hypot|powi|recip)$', r'^num_integration\.impl_Pow_r?(i8|i16|i32|u8|u16)_for'],
+                    gen=gen_C13, chk=chk_C13, n_quick=400, n_thorough=20000,
+                    followups=[(recip_C13, chk_nothing, True), (recip2_C13, chk_want, True)])
+
+# ================================================================================================ C14 exponential family
+
+def gen_C14(r, n):
+    c = Cases()
+    def add(fn, x, **kw):
+        c.add('TwoFloat.%s %s' % (fn, w2(x)), kind=fn, x=x, **kw)
+    for _ in range(n):
+        k = r.below(10)
+        # exp: hit every table entry: x = y/2 + n/128 + tiny
+        y = r.rng(-1200, 1400); nn = r.rng(-32, 32)
+        q = Fr(y, 2) + Fr(nn, 128) + Fr(r.rng(-2**20, 2**20), 2 ** (20 + r.rng(7, 60)))
+        if k < 5 and -600 <= q <= 700:
+            add('exp', tf_of_fr(q))
+        elif k < 7:
+            add('exp', log_uniform_tf(r, -60, 9))
+        else:
+            add('exp', tf_near(r, r.choice([Fr(-600), Fr(700), Fr(1, 4), Fr(-1, 4), Fr(709), Fr(-745), Fr(1, 128), Fr(3, 256)])))
+        # exp2
+        q2 = Fr(r.rng(-900, 1000)) + Fr(r.rng(-2**20, 2**20), 2**20) * r.choice([1, Fr(1, 2**r.rng(1, 40))])
+        if -900 <= q2 <= 1000:
+            add('exp2', tf_of_fr(q2))
+        add('exp2', (float(r.rng(-1022, 1022)), 0.0), exact=True)
+        # exp_m1
+        kk = r.below(6)
+        if kk == 0:
+            xm = log_uniform_tf(r, -1000, -8)
+        elif kk == 1:
+            xm = tf_of_fr(Fr(r.rng(-70 * 2**20, 41 * 2**20), 100 * 2**20))       # the 2^-45 zone [-0.70, 0.41]
+        elif kk == 2:
+            xm = tf_near(r, r.choice([Fr(-6931, 10000), Fr(4054, 10000), Fr(-7, 10), Fr(41, 100), Fr(1, 256), Fr(-1, 256)]))
+        else:
+            xm = tf_of_fr(Fr(r.rng(-600 * 2**20, 700 * 2**20), 2**20))
+        add('exp_m1', xm)
+        # powf
+        px = log_uniform_tf(r, -30, 30, sign=1)
+        py = tf_of_fr(Fr(r.rng(-10 * 2**30, 10 * 2**30), 2**30))
+        c.add('TwoFloat.powf %s %s' % (w2(px), w2(py)), kind='powf', x=px, y=py)
+        # negative base: integer and non-integer exponents (parity from the right word)
+        nb = (-px[0], -px[1])
+        iy = r.choice([(float(r.rng(-9, 9)), 0.0), tf_of_fr(Fr(2**60 + r.rng(0, 7))), tf_of_fr(Fr(2**53 + 1))])
+        c.add('TwoFloat.powf %s %s' % (w2(nb), w2(iy)), kind='powf_neg_int', x=nb, y=iy)
+        c.add('TwoFloat.powf %s %s' % (w2(nb), w2(py)), kind='powf_neg', x=nb, y=py)
+        c.add('TwoFloat.powf %s %s' % (w2(px), w2((0.0, 0.0))), kind='powf_y0', x=px)
+        c.add('TwoFloat.powf %s %s' % (w2((0.0, 0.0)), w2(py)), kind='powf_x0', y=py)
+        # thresholds
+        add('exp', tf_in(r, 10, 30), thr=True)
+        add('exp2', tf_in(r, 10, 30), thr=True)
+    for z in ((0.0, 0.0), (-0.0, 0.0)):
+        add('exp', z, zero=True); add('exp_m1', z, zero=True); add('exp2', z, exact=True)
+    c.add('TwoFloat.powf %s %s' % (w2((0.0, 0.0)), w2((0.0, 0.0))), kind='powf_00')
+    return c
+
+def chk_C14(c, ans):
+    out = []
+    m = mp()
+    for i, (ln, mt, a) in enumerate(zip(c.lines, c.meta, ans)):
+        if a == 'bad-op':
+            out.append(fail(i, 'no-answer', a)); continue
+        if a == 'PANIC':
+            out.append(fail(i, 'no-panic', 'panicked on a valid argument')); continue
+        hl = words(a)
+        k = mt['kind']
+        if k == 'exp':
+            v = mpv(*mt['x'])
+            if mt.get('zero'):
+                if not (hl == (1.0, 0.0)):
+                    out.append(fail(i, 'exp_zero', a))
+            elif v <= -750:
+                if not (hl[0] == 0 and hl[1] == 0):
+                    out.append(fail(i, 'exp_underflow_zero', a))
+            elif v >= 710:
+                if fp.isfin(hl[0]):
+                    out.append(fail(i, 'exp_overflow_nonfinite', a))
+            elif -600 <= v <= 700:
+                t = m.exp(v)
+                err_fail(i, out, 'exp_bound', hl, t, t * P2(-100))
+        elif k == 'exp2':
+            v = mpv(*mt['x'])
+            if mt.get('exact'):
+                kk = int(mt['x'][0])
+                if not (hl[0] == math.ldexp(1.0, kk) and hl[1] == 0):
+                    out.append(fail(i, 'exp2_int_exact', '2^%d -> %s' % (kk, a)))
+            elif v <= -1080:
+                if not (hl[0] == 0 and hl[1] == 0):
+                    out.append(fail(i, 'exp2_underflow_zero', a))
+            elif v >= 1024:
+                if fp.isfin(hl[0]):
+                    out.append(fail(i, 'exp2_overflow_nonfinite', a))
+            elif -900 <= v <= 1000:
+                t = m.power(2, v)
+                err_fail(i, out, 'exp2_bound', hl, t, t * P2(-93))
+        elif k == 'exp_m1':
+            v = mpv(*mt['x'])
+            if mt.get('zero'):
+                if not (hl[0] == 0 and hl[1] == 0):
+                    out.append(fail(i, 'exp_m1_zero', a))
+            elif v <= 700 and abs(v) >= P2(-1000):
+                t = m.expm1(v)
+                tight = abs(v) <= P2(-8) or v < m.mpf('-0.70') or v > m.mpf('0.41')
+                err_fail(i, out, 'exp_m1_bound' if tight else 'exp_m1_bound_mid', hl, t, abs(t) * (P2(-100) if tight else P2(-45)))
+        elif k == 'powf':
+            x, y = mpv(*mt['x']), mpv(*mt['y'])
+            t = m.power(x, y)
+            err_fail(i, out, 'powf_bound', hl, t, t * P2(-100) * (1 + abs(y * m.log(x))))
+        elif k == 'powf_neg_int':
+            x, y = mpv(*mt['x']), mpv(*mt['y'])
+            yi = int(V(*mt['y']))
+            if abs(yi) <= 40 and finite(*hl):
+                t = m.power(abs(x), y) * (-1 if yi % 2 else 1)
+                err_fail(i, out, 'powf_neg_base', hl, t, abs(t) * P2(-100) * (1 + abs(y * m.log(abs(x)))))
+            if fp.is_valid(*hl) and hl[0] != 0 and ((hl[0] < 0) != (yi % 2 == 1)):
+                out.append(fail(i, 'powf_neg_parity', 'y=%d -> %s' % (yi, a)))
+        elif k == 'powf_neg':
+            if V(*mt['y']).denominator != 1 and fp.is_valid(*hl):
+                out.append(fail(i, 'powf_neg_nonint_invalid', a))
+        elif k == 'powf_y0':
+            if not (hl == (1.0, 0.0)):
+                out.append(fail(i, 'powf_y_zero', a))
+        elif k == 'powf_x0':
+            if V(*mt['y']) > 0 and not (hl[0] == 0 and hl[1] == 0):
+                out.append(fail(i, 'powf_zero_base', a))
+        elif k == 'powf_00':
+            if fp.is_valid(*hl):
+                out.append(fail(i, 'powf_0_0_invalid', a))
+    return out
+
+PROPS['C14'] = dict(roots=[r'^TwoFloat\.(exp|exp_m1|exp2|powf)$'], gen=gen_C14, chk=chk_C14, n_quick=300, n_thorough=15000)
+
+# ================================================================================================ C15 logarithms
+
+def gen_C15(r, n):
+    c = Cases()
+    for _ in range(n):
+        k = r.below(8)
+        if k < 4:
+            x = log_uniform_tf(r, -1000, 960, sign=1)
+        elif k < 6:
+            x = tf_near(r, Fr(1), 2)                       # dense around 1, where the result changes sign
+        else:
+            x = tf_near(r, Fr(2) ** r.rng(-20, 20), 20)
+        for fn in ('ln', 'log2', 'log10'):
+            c.add('TwoFloat.%s %s' % (fn, w2(x)), kind=fn, x=x)
+        c.add('TwoFloat.log2 %s' % w2((math.ldexp(1.0, r.rng(-1000, 960)), 0.0)), kind='log2_pow2')
+        b = log_uniform_tf(r, -20, 20, sign=1)
+        c.add('TwoFloat.log %s %s' % (w2(x), w2(b)), kind='log', x=x, b=b)
+        # ln_1p
+        kk = r.below(6)
+        if kk == 0:
+            y = log_uniform_tf(r, -1000, -8)
+        elif kk == 1:
+            y = tf_of_fr(Fr(r.rng(-2**30 + 1, 3 * 2**28), 2**30))      # (-1, 0.75)
+        elif kk == 2:
+            y = tf_near(r, r.choice([Fr(3, 4), Fr(-1, 2), Fr(1, 256), Fr(-1, 256), Fr(-999, 1000)]))
+        else:
+            y = log_uniform_tf(r, -1, 960, sign=1)
+        c.add('TwoFloat.ln_1p %s' % w2(y), kind='ln_1p', x=y)
+        # domain
+        neg = log_uniform_tf(r, -1000, 960, sign=-1)
+        for fn in ('ln', 'log2', 'log10'):
+            c.add('TwoFloat.%s %s' % (fn, w2(neg)), kind='dom', x=neg)
+        c.add('TwoFloat.ln_1p %s' % w2(tf_of_fr(-1 - abs(Fr(r.rng(0, 2**30), 2**20)))), kind='dom')
+    one = (1.0, 0.0)
+    for fn in ('ln', 'log2', 'log10'):
+        c.add('TwoFloat.%s %s' % (fn, w2(one)), kind='zero_at')
+        c.add('TwoFloat.%s %s' % (fn, w2((0.0, 0.0))), kind='dom')
+    c.add('TwoFloat.ln_1p %s' % w2((0.0, 0.0)), kind='zero_at')
+    c.add('TwoFloat.ln_1p %s' % w2((-1.0, 0.0)), kind='dom')
+    return c
+
+def chk_C15(c, ans):
+    out = []
+    m = mp()
+    for i, (ln, mt, a) in enumerate(zip(c.lines, c.meta, ans)):
+        if a == 'bad-op':
+            out.append(fail(i, 'no-answer', a)); continue
+        if a == 'PANIC':
+            out.append(fail(i, 'no-panic', 'panicked on a valid argument')); continue
+        hl = words(a)
+        k = mt['kind']
+        if k == 'ln':
+            t = m.log(mpv(*mt['x']))
+            err_fail(i, out, 'ln_bound', hl, t, P2(-101) * (1 + abs(t)))
+        elif k == 'log2':
+            t = m.log(mpv(*mt['x']), 2)
+            err_fail(i, out, 'log2_bound', hl, t, P2(-101) * abs(t) + P2(-92))
+        elif k == 'log10':
+            t = m.log10(mpv(*mt['x']))
+            err_fail(i, out, 'log10_bound', hl, t, P2(-100) * (1 + abs(t)))
+        elif k == 'log2_pow2':
+            kk = math.frexp(unhx(args_of(ln)[0]))[1] - 1
+            if not (hl[0] == float(kk) and hl[1] == 0):
+                out.append(fail(i, 'log2_pow2_exact', 'log2(2^%d) = %s' % (kk, a)))
+        elif k == 'ln_1p':
+            v = mpv(*mt['x'])
+            if v > -1 and (v == 0 or abs(v) >= P2(-1000)):
+                t = m.log1p(v)
+                tight = abs(v) <= P2(-8) or v >= m.mpf('0.75')
+                err_fail(i, out, 'ln_1p_bound' if tight else 'ln_1p_bound_mid', hl, t, abs(t) * (P2(-100) if tight else P2(-45)))
+        elif k == 'dom':
+            if fp.is_valid(*hl):
+                out.append(fail(i, 'log_domain_invalid', a))
+        elif k == 'zero_at':
+            if not (hl[0] == 0 and hl[1] == 0):
+                out.append(fail(i, 'log_exact_zero', a))
+    return out
+
+def ident_C15(c, ans):
+    """log(x, b) == ln x / ln b and log10 x == ln x / LN_10, bit for bit (second round)"""
+    c2 = Cases()
+    lnx = {}
+    for ln, mt, a in zip(c.lines, c.meta, ans):
+        if mt['kind'] == 'ln':
+            lnx[w2(mt['x'])] = a
+    for ln, mt, a in zip(c.lines, c.meta, ans):
+        if mt['kind'] == 'log10' and w2(mt['x']) in lnx and a != 'PANIC':
+            c2.add('%s %s %s' % (TT('Div'), lnx[w2(mt['x'])], '40026bb1bbb55516 bcaf48ad494ea3e9'), want=a, clause='log10_is_ln_div_ln10')
+        if mt['kind'] == 'log' and w2(mt['x']) in lnx and a != 'PANIC':
+            c2.add('TwoFloat.ln %s' % w2(mt['b']), stage='lnb', lnx=lnx[w2(mt['x'])], want_final=a, want=None, clause='stage')
+    return c2
+def chk_ident_C15(c2, ans):
+    return [fail(i, m['clause'], 'got %s want %s' % (a, m['want'])) for i, (m, a) in enumerate(zip(c2.meta, ans)) if m['want'] is not None and a != m['want']]
+def ident2_C15(c2, ans):
+    c3 = Cases()
+    for ln, mt, a in zip(c2.lines, c2.meta, ans):
+        if mt.get('stage') == 'lnb' and a != 'PANIC':
+            c3.add('%s %s %s' % (TT('Div'), mt['lnx'], a), want=mt['want_final'], clause='log_is_ln_div_ln')
+    return c3
+
+PROPS['C15'] = dict(roots=[r'^TwoFloat\.(ln|ln_1p|log|log2|log10)$'], gen=gen_C15, chk=chk_C15, n_quick=150, n_thorough=8000,
+                    followups=[(ident_C15, chk_ident_C15, True), (ident2_C15, chk_want, True)])
